@@ -343,7 +343,59 @@ impl Prop for C10 {
                 }))?;
             }
         }
-        let mut writes: Vec<&Ev> = base.trace.iter().filter(|x| x.op == "write").collect();
+        let hash_ordered = cb != "csvdump";
+        if hash_ordered {
+            // unspent / balances write their rows in the process's HashMap order, so the sizes and even the
+            // number of write calls differ between two executions: faults and kill points after the first
+            // write are addressed by the ORDINAL of the write call (and of the rename), with byte counts that do
+            // not depend on the row order; everything before the first write is addressed by event index.
+            let rows = {
+                let m = Model::new(&world);
+                if cb == "balances" { m.balance_rows(s, e).0.len() } else { m.unspent_rows(s, e).0.len() }
+            } as u64;
+            let n_w = (rows + 2).min(120);
+            if rows + 2 <= 120 {
+                h.stats.probe("write_events_enumerated_fully");
+            }
+            for k in 1..=n_w {
+                for (errno, after) in [(28, Some(0u64)), (28, Some(1)), (28, Some(1 << 40)), ([5, 32, 27, 122, 11, 9][(k % 6) as usize], None)] {
+                    if mine() {
+                        h.check(&mut mk("write-fail", &|r| {
+                            r.plan.failw = vec![PointFail { at: k, errno, after }]
+                        }))?;
+                    }
+                }
+                for after in [None, Some(1u64), Some(1 << 40)] {
+                    if mine() {
+                        h.check(&mut mk("crash", &|r| r.plan.crashw = Some((k, after))))?;
+                    }
+                }
+            }
+            for after in [false, true] {
+                if mine() {
+                    h.check(&mut mk("crash", &|r| r.plan.crashr = Some((1, after))))?;
+                }
+            }
+            // kill before every event up to (and including) the first write: that prefix is the same in every execution
+            let first_write = base.trace.iter().find(|x| x.op == "write").map(|x| x.seq).unwrap_or(0);
+            let mut evs: Vec<u64> = (0..=first_write).collect();
+            if evs.len() > 250 {
+                let tail: Vec<u64> = evs.split_off(evs.len() - 40);
+                let mut sampled: Vec<u64> = (0..150).map(|_| evs[rng.usize(0, evs.len() - 1)]).collect();
+                sampled.extend(tail);
+                sampled.sort();
+                sampled.dedup();
+                evs = sampled;
+            } else {
+                h.stats.probe("crash_points_enumerated_fully");
+            }
+            for i in evs {
+                if mine() {
+                    h.check(&mut mk("crash", &|r| r.plan.crash = Some((i, None))))?;
+                }
+            }
+        }
+        let mut writes: Vec<&Ev> = if hash_ordered { vec![] } else { base.trace.iter().filter(|x| x.op == "write").collect() };
         if writes.len() > 120 {
             let keep_tail = writes.split_off(writes.len() - 20);
             let mut sampled: Vec<&Ev> = Vec::new();
@@ -354,7 +406,7 @@ impl Prop for C10 {
             sampled.sort_by_key(|x| x.seq);
             sampled.dedup_by_key(|x| x.seq);
             writes = sampled;
-        } else {
+        } else if !hash_ordered {
             h.stats.probe("write_events_enumerated_fully");
         }
         for w in &writes {
@@ -386,7 +438,7 @@ impl Prop for C10 {
             }
         }
         // (3) crash points: before every event (sampled when the trace is long), inside every kept write
-        let mut evs: Vec<u64> = base.trace.iter().map(|x| x.seq).collect();
+        let mut evs: Vec<u64> = if hash_ordered { vec![] } else { base.trace.iter().map(|x| x.seq).collect() };
         if evs.len() > 250 {
             let tail: Vec<u64> = evs.split_off(evs.len() - 40);
             let mut sampled: Vec<u64> = (0..150).map(|_| evs[rng.usize(0, evs.len() - 1)]).collect();
@@ -394,7 +446,7 @@ impl Prop for C10 {
             sampled.sort();
             sampled.dedup();
             evs = sampled;
-        } else {
+        } else if !hash_ordered {
             h.stats.probe("crash_points_enumerated_fully");
         }
         for i in evs {
@@ -427,7 +479,10 @@ impl Prop for C10 {
             }))?;
         }
         // (4) rename failures
-        for ev in base.trace.iter().filter(|x| x.op == "rename") {
+        if hash_ordered && mine() {
+            h.check(&mut mk("rename-fail", &|r| r.plan.failr = vec![(1, 13)]))?;
+        }
+        for ev in base.trace.iter().filter(|x| x.op == "rename" && !hash_ordered) {
             if !mine() {
                 continue;
             }
